@@ -11,6 +11,7 @@ import (
 	"bytes"
 	"context"
 	"fmt"
+	"io"
 	"math/rand"
 	"os"
 	"path/filepath"
@@ -318,7 +319,7 @@ func runC01(args []string) int {
 		content := []byte(it.content)
 		names := schemes[it.scheme]
 		model.NameValidationScheme = names
-		rep.hist(fmt.Sprintf("scheme:%v", names))
+		rep.hist("name-validation:" + map[model.ValidationScheme]string{model.UTF8Validation: "utf8", model.LegacyValidation: "legacy"}[names])
 		if strings.Contains(it.content, "# pint") || len(comments.Parse(1, it.content)) > 0 {
 			rep.hist("skipped:pint-comment")
 			continue
@@ -336,8 +337,13 @@ func runC01(args []string) int {
 			term = "" // oracle only: the correspondence term would be dominated by the filler text
 		}
 		// glue (mask_id): without pint control comments the masking reader hands yaml.v3 exactly the file's bytes
+		// (checked as: yaml.v3 returns the same forest for the reader's output as for the raw bytes Prometheus decodes; the byte
+		// identity itself is only recorded — a reader that e.g. normalised line ends would not break the property)
 		through, _, rerr := parser.VerifReadThrough(content)
-		readerID := rerr == nil && bytes.Equal(through, content)
+		if rerr != nil || !bytes.Equal(through, content) {
+			rep.hist("reader-bytes-differ")
+		}
+		readerID := sameForestAsRaw(content, docs)
 		res := runPipeline(file, true, parser.PrometheusSchema, names, 30*time.Second)
 		os.Remove(file)
 		model.NameValidationScheme = names
@@ -377,7 +383,7 @@ func runC01(args []string) int {
 		if !blockedAny && !promOK {
 			what := "pint (strict, default offline checks) reports no Bug/Fatal but rulefmt.Parse rejects the file: " + strings.Join(errStrings(perrs), "; ")
 			if !readerID {
-				what += fmt.Sprintf(" [the content reader delivered %d of %d bytes to the yaml decoder]", len(through), len(content))
+				what += fmt.Sprintf(" [pint's yaml decoder did not see the document Prometheus sees: the content reader delivered %d of %d bytes]", len(through), len(content))
 			}
 			known := ""
 			switch {
@@ -494,6 +500,52 @@ func c01Special(r *rand.Rand) string {
 	})
 	top := pick(r, []string{"groups:\n", "groups:\n", "groups:\n", "---\ngroups:\n", "\"groups\":\n"})
 	return top + group + rule
+}
+
+// sameForestAsRaw: decoding the raw bytes with yaml.v3 (what rulefmt.Parse starts from) gives the same documents — kinds,
+// tags, values, shape, alias targets — as pint's decoder got through its content reader, and fails iff that one failed.
+func sameForestAsRaw(content []byte, docs []parser.VerifDoc) bool {
+	_, _, yerr, _ := parser.VerifForest(content)
+	dec := yaml.NewDecoder(bytes.NewReader(content))
+	i := 0
+	for {
+		var doc yaml.Node
+		err := dec.Decode(&doc)
+		if err == io.EOF {
+			return i == len(docs) && yerr == nil
+		}
+		if err != nil {
+			return i == len(docs) && yerr != nil
+		}
+		if i >= len(docs) || !sameNode(&doc, docs[i].Node, 0) {
+			return false
+		}
+		i++
+	}
+}
+
+func sameNode(a, b *yaml.Node, depth int) bool {
+	if a == nil || b == nil {
+		return a == b
+	}
+	if depth > 200 {
+		return true // cyclic anchors are skipped before this point; bound the walk anyway
+	}
+	if a.Kind != b.Kind || a.ShortTag() != b.ShortTag() || a.Value != b.Value || a.Anchor != b.Anchor || len(a.Content) != len(b.Content) {
+		return false
+	}
+	if (a.Alias == nil) != (b.Alias == nil) {
+		return false
+	}
+	if a.Alias != nil && !sameNode(a.Alias, b.Alias, depth+1) {
+		return false
+	}
+	for i := range a.Content {
+		if !sameNode(a.Content[i], b.Content[i], depth+1) {
+			return false
+		}
+	}
+	return true
 }
 
 // rleLong writes runs of at least 64 equal bytes as «c*N» (replays of the reader-stress files stay readable).
